@@ -9,7 +9,9 @@ def handler(job):
     arg = dgms if job["islist"] else dgms[0]
 
     def call(j):
-        kw = dict(keep_inf=bool(j["keepinf"]), normalize=bool(j["normalize"]))
+        # the flags as a caller may hold them: Python bools, NumPy bools (the result of an np.any / np.isinf test) or the integers 0 / 1
+        ft = {0: bool, 1: np.bool_, 2: int}[job.get("flagtype", 0)]
+        kw = dict(keep_inf=ft(j["keepinf"]), normalize=ft(j["normalize"]))
         if j["hasvi"]:
             kw["val_inf"] = j["vi"]
         o = {}
